@@ -254,6 +254,14 @@ func (c *Cluster) checkGenerated(prop, path string, t uint32, parts []*Node, out
 			return
 		}
 		sigs[i] = sig
+		// ... and when the account is addressed by its (share) public key.
+		if a := p.storedAccount(path); a != nil {
+			res, err := p.Inst.SignerH.Sign(p.Inst.ClientCtx("client1", ""), &pb.SignRequest{Id: &pb.SignRequest_PublicKey{PublicKey: a.PublicKey().Marshal()}, Data: data, Domain: domain})
+			if err != nil || res.GetState() != pb.ResponseState_SUCCEEDED || !bytes.Equal(res.GetSignature(), sig) {
+				bad("cannot-sign", "participant %s cannot sign with %s when it is addressed by its share public key (state %v)", p.Name, path, res.GetState())
+				return
+			}
+		}
 		var bs bls.Sign
 		var pk bls.PublicKey
 		a := p.storedAccount(path)
